@@ -137,6 +137,7 @@ type Outcome struct {
 	Nontrivial bool         // by the scenario's stated rule
 	Viol       []*Violation // nil when every oracle held
 	Sample     any          // optional: the case written out
+	LazySample func() any   // optional: computed only when a sample is actually recorded
 	Traces     int          // number of implementation runs compared with the model/twin in this execution
 }
 
@@ -239,7 +240,10 @@ func Explore(item string, scn Scenario, b Bounds, st *Stats, tier string) {
 					panic(HarnessError{fmt.Sprintf("nondeterminism: item %s choices %v: outcome differs on re-execution:\n 1: %s\n 2: %s", item, x.Choices(), out.Sig, s2)})
 				}
 			}
-			if st.Executions%sampleEvery == 0 && out.Sample != nil && len(st.Samples) < 6 {
+			if st.Executions%sampleEvery == 0 && (out.Sample != nil || out.LazySample != nil) && len(st.Samples) < 6 {
+				if out.Sample == nil {
+					out.Sample = out.LazySample()
+				}
 				st.Samples = append(st.Samples, out.Sample)
 				sampleEvery *= 7
 			}
